@@ -514,9 +514,17 @@ def execute(plan, run):
             continue
         if step['t'] is None:
             # default execution timestamp: whatever the clock showed first in this call
+            # (any read of this call may be the one run_script took it from: the model is
+            # evaluated for each; where they disagree it does not care)
             run.probe('default_timestamp')
-            step = dict(step, t=int(reads[0]) if reads else 0)
-        mdl = model(step, reads)
+            cands = sorted({int(r) for r in reads}) or [0]
+            verdicts = {model(dict(step, t=c), reads) for c in cands}
+            # (the explaining clause of a signature is computed for the largest candidate:
+            # the one for which the slack clause trips first)
+            step = dict(step, t=cands[-1])
+            mdl = verdicts.pop() if len(verdicts) == 1 else EITHER
+        else:
+            mdl = model(step, reads)
         if step.get('nest', 'top') != 'top':
             run.probe('nested_' + step['nest'])
         run.sched.append([step['kind'], step.get('nest', 'top'), step['validator'], len(reads),
